@@ -65,9 +65,9 @@ func mvisMetricOf(s, nMetrics int) string { return fmt.Sprintf("mv%d", s%nMetric
 
 // one rotation of one shard
 type mvisRot struct {
-	dir       string          // MSegmentDir of the segment that was rotated ("" = block rotation only / nothing happened)
-	lo        map[int]int64   // per series of the shard: lower bound of the first index that may be in this segment
-	hi        map[int]int64   // per series: upper bound (exclusive) of the indices that may be in it; nil while the call runs
+	dir       string        // MSegmentDir of the segment that was rotated ("" = block rotation only / nothing happened)
+	lo        map[int]int64 // per series of the shard: lower bound of the first index that may be in this segment
+	hi        map[int]int64 // per series: upper bound (exclusive) of the indices that may be in it; nil while the call runs
 	ended     atomic.Bool
 	isSeg     atomic.Bool // a segment was rotated (known when the call returned)
 	confirmed atomic.Bool // the query side has loaded the segment
@@ -371,7 +371,7 @@ func cmdMvisStress(c Cmd) (interface{}, error) {
 	nQueriers := int(c.i64("queriers", 3))
 	nPutters := int(c.i64("putters", 3))
 	segRotate := !c.boolean("no_seg_rotate")
-	segEvery := int(c.i64("seg_every", 6)) // one rotation in seg_every also rotates the segment
+	segEvery := int(c.i64("seg_every", 6))  // one rotation in seg_every also rotates the segment
 	prerotate := c.boolean("prerotate")     // start with one rotated segment per shard that the query side has loaded
 	flushUs := int(c.i64("flush_us", 1000)) // the "timer" flush fires every flush_us .. 4*flush_us microseconds
 	forceFlushAtEnd := c.boolean("force_flush")
